@@ -40,6 +40,8 @@ pub enum Bad {
     BinMismatch(BinOp, usize, usize),
     FromCofactorsMismatch(usize),
     BddMismatch(usize),
+    /// bdd_complexity of a list of `len` tables where the one at `pos` (>= 1) has another size
+    BddMismatchAt(usize, usize, usize),
 }
 
 #[derive(Clone, Debug, Hash, Serialize, Deserialize)]
@@ -127,6 +129,11 @@ fn run_bad(c: &BadCase) -> Verdict {
         Bad::BinMismatch(op, form, n2) => describe(Some((x.bin_form(*op, *form, other(*n2).as_ref()).as_ref(), None))),
         Bad::FromCofactorsMismatch(n2) => describe(Some((x.from_cofactors(other(*n2).as_ref(), 0).as_ref(), None))),
         Bad::BddMismatch(n2) => format!("{}", x.bdd_complexity_with(&[other(*n2).as_ref()])),
+        Bad::BddMismatchAt(n2, pos, len) => {
+            let o = other(*n2);
+            let others: Vec<&dyn Tab> = (1..*len).map(|k| if k == *pos { o.as_ref() } else { x.as_ref() }).collect();
+            format!("{}", x.bdd_complexity_with(&others))
+        }
     });
     let name = format!("{:?}", c.call).split('(').next().unwrap_or("").to_string();
     match r {
@@ -217,6 +224,11 @@ fn enumerate_bad(_t: Tier, shard: usize, nshards: usize, f: &mut dyn FnMut(BadCa
                             calls.push(Bad::FromCofactorsMismatch(n2));
                         }
                         calls.push(Bad::BddMismatch(n2));
+                        for len in 3..=6usize {
+                            for pos in 1..len {
+                                calls.push(Bad::BddMismatchAt(n2, pos, len));
+                            }
+                        }
                     }
                 }
                 for call in calls {
@@ -415,7 +427,7 @@ fn run_valid(c: &ValidCase) -> Verdict {
 pub fn def() -> PropDef {
     PropDef {
         id: "C17",
-        rule: "invalid: cases = (family, receiver table, call with an out-of-range or mismatched argument), n in 0..=8, run in BOTH build profiles (release; release + debug-assertions + overflow-checks): nth_var, value/get_bit/set_bit/unset_bit/set_value (assignment in 2^n..=2^n+70 and 2^20, usize::MAX/2, MAX-1, MAX), flip(_inplace), swap(_inplace) with either or both indices bad and in both argument orders, swap_adjacent(_inplace) (n-1 included), cofactors, from_cofactors, top_decomposition, is_pos_unate, is_neg_unate (index in n..=n+70 and 255, 256, 2^20, usize::MAX/2, MAX-1, MAX), from_blocks with every slice length 0..=6 other than the right one, and for Lut every form of and/or/xor, from_cofactors and bdd_complexity with operands of different n; three receivers per size (constant one, a dense table, zero) — this part is a complete enumeration in both tiers — plus generated receivers and arbitrary out-of-range values. Under catch_unwind the call must panic; `returned` is the violation and what was returned is reported. Non-trivial = index/assignment within 64 of the valid range (where release kernels would compute silently). valid: cases = (family, history of 1..16 (quick) / 1..40 (thorough) in-range API calls over a pool of 4 generated tables, n in 0..=8, the whole common API as in C10 incl. equals/threshold with k up to usize::MAX and the hooked successor); the history is executed in this build and, through a long-lived child process (`vcheck serve`), in the other build profile; every step's outcome (blocks, certificates, strings, counts, orderings, Ok/Err) must be identical and neither side may panic. Non-trivial = the history reaches a kernel with debug assertions or arithmetic on user-supplied sizes.",
+        rule: "invalid: cases = (family, receiver table, call with an out-of-range or mismatched argument), n in 0..=8, run in BOTH build profiles (release; release + debug-assertions + overflow-checks): nth_var, value/get_bit/set_bit/unset_bit/set_value (assignment in 2^n..=2^n+70 and 2^20, usize::MAX/2, MAX-1, MAX), flip(_inplace), swap(_inplace) with either or both indices bad and in both argument orders, swap_adjacent(_inplace) (n-1 included), cofactors, from_cofactors, top_decomposition, is_pos_unate, is_neg_unate (index in n..=n+70 and 255, 256, 2^20, usize::MAX/2, MAX-1, MAX), from_blocks with every slice length 0..=6 other than the right one, and for Lut every form of and/or/xor, from_cofactors and bdd_complexity with operands of different n (for bdd_complexity the odd table at every position of lists of 2..=6 tables); three receivers per size (constant one, a dense table, zero) — this part is a complete enumeration in both tiers — plus generated receivers and arbitrary out-of-range values. Under catch_unwind the call must panic; `returned` is the violation and what was returned is reported. Non-trivial = index/assignment within 64 of the valid range (where release kernels would compute silently). valid: cases = (family, history of 1..16 (quick) / 1..40 (thorough) in-range API calls over a pool of 4 generated tables, n in 0..=8, the whole common API as in C10 incl. equals/threshold with k up to usize::MAX and the hooked successor); the history is executed in this build and, through a long-lived child process (`vcheck serve`), in the other build profile; every step's outcome (blocks, certificates, strings, counts, orderings, Ok/Err) must be identical and neither side may panic. Non-trivial = the history reaches a kernel with debug assertions or arithmetic on user-supplied sizes.",
         assumptions: vec![
             "a panic is recognised through catch_unwind (panic = unwind in both harness profiles)",
             "a dead / unreachable other-profile process is reported as inconclusive (exit 2), never as a violation",
